@@ -539,7 +539,7 @@ def run_mutant(m: dict, workers: int) -> tuple:
     except RuntimeError as e:
         return m, "BROKEN-PATCH", str(e), 0.0
     try:
-        rc, out, err = run([PY, *ARGS[m["prop"]]], env={"SCHWIFTY_SRC": tmp, "VERIF_WORKERS": str(workers)})
+        rc, out, err = run([PY, *ARGS[m["prop"]]], env={"SCHWIFTY_SRC": tmp, "VERIF_WORKERS": str(workers), "VERIF_WALL_CAP": "3000"})
     finally:
         shutil.rmtree(tmp, ignore_errors=True)
     flagged = rc == 1 and f"VIOLATION property={m['prop']}" in out
